@@ -8,6 +8,11 @@ Three streams:
   rep / heaprep  value-keyed state and repeated configurations: the same value text in several fields, entries and libraries x
                stacks holding one middleware class 2-3 times with different option sets, on libraries that already hold
                structured values; every result also checked against everything handed out by earlier calls (see c07_rep.py)
+  reent / thr  ONE middleware instance used by OVERLAPPING calls: re-entered from user code that gets control while the
+               middleware is at work (Field / str / block subclasses, __deepcopy__, logging filter / handler, showwarning, a
+               user subclass of the shipped class), and driven by 2-3 threads under a deterministic schedule; every call judged
+               by the property, then the instance's public configuration and a plain call against a fresh instance
+               (see c07_reent.py)
 """
 from props import pubapi
 import copy
@@ -37,7 +42,22 @@ RULE = ("libraries parsed (default stack, empty stack, or with name / month / ke
         "Resolve chains), both documents in one process with fresh or with shared middleware instances; each judged call is "
         "checked against its input AND against every library handed out earlier in the case (parsed libraries, prep results, "
         "earlier results on either document), and every library handed out is compared at the end with the copy taken when it "
-        "was handed out; heaprep = the single-document block-middleware part of that class against the Coq heap model. distinct = distinct (document, parse option, stack, mode); non-trivial = "
+        "was handed out; heaprep = the single-document block-middleware part of that class against the Coq heap model; "
+        "reent / thr (props/c07_reent.py): every configuration in copy mode x a channel through which user code gets control "
+        "while the middleware is at work (Field subclass key / value getters and setters, str subclass methods, block subclass "
+        "attribute access, __deepcopy__ of user classes, a logging filter on every logger of the library, a lock-free handler "
+        "on its top logger, warnings.showwarning, a user subclass of the shipped class overriding transform_block / "
+        "transform_entry / ...; or all at once) x [reent] at 1-3 chosen events of the outer call (indices reduced modulo the "
+        "event count of a dry run) the callback runs transform of the SAME instance and / or of ANOTHER instance of the class "
+        "on the other document's library or on the outer call's own input, sometimes re-entered once more (depth 2); [thr] 2-3 "
+        "daemon threads calling transform of the one instance, parked at chosen events by threading.Event with bounded waits, "
+        "the main thread playing one of 7 schedules (B inside A, crossing = B starts inside A and ends after it, three "
+        "crossing, three nested, A parked twice with a whole call in each gap, ping-pong, B and C inside A; the not properly "
+        "nested ones, which re-entrancy in one thread cannot produce, more often) so that one thread runs at a time; every call (outer, inner, each thread's) is "
+        "judged against its input and everything handed out before, then the instance's public attributes are compared with "
+        "what they read after construction and with a fresh instance, a plain call is judged and compared structurally with "
+        "a fresh instance's result, and every library handed out with the copy taken then; oracle only (overlapping calls "
+        "have no counterpart in the heap model). distinct = distinct (document, parse option, stack, mode); non-trivial = "
         "the library has at least one entry or string block, i.e. some mutable field/value/metadata object that could be shared")
 TRUSTED = ["heap snapshotter harness/heapsnap.py: walks __dict__, list, dict, set, tuple; fails closed on any other object type; "
            "objects reachable only through C-level state or closures would be invisible (none in the shipped classes)",
@@ -328,6 +348,9 @@ def generate(rng, tier):
     # value-keyed state and repeated configurations (drawn last: the streams above are the same as before for a given seed)
     import props.c07_rep as R
     cases += R.generate(rng, tier, _this())
+    # re-entrant and interleaved use of ONE instance (drawn after everything else: the streams above keep their inputs)
+    import props.c07_reent as X
+    cases += X.generate(rng, tier, _this())
     return cases
 
 
@@ -436,6 +459,9 @@ def impl(case):
     if inp["kind"] == "rep":
         import props.c07_rep as R
         return R.impl(case, _this())
+    if inp["kind"] == "reent":
+        import props.c07_reent as X
+        return X.impl(case, _this())
     if inp["kind"] == "wseq":
         return impl_wseq(inp)
     import heapsnap as HS
